@@ -301,12 +301,12 @@ Proof.
 Qed.
 
 (* a chunk that starts with a complete prefix declaring more than the limit: refused at once *)
-Lemma idle_oversize d0 d1 g a b c x more rest : idle d0 d1 -> e0 = None \/ True ->
+Lemma idle_oversize d0 d1 g a b c x more rest : idle d0 d1 ->
   lim < un_be32 a b c x ->
   exists d', poll_next (BData (0 :: a :: b :: c :: x :: more) :: rest) g d0 =
                (Item (IErr st_too_large), d', rest, g) /\ d_state d' = Error None.
 Proof.
-  intros Id _ L. destruct Id as (NE & DC & J1 & B & S).
+  intros Id L. destruct Id as (NE & DC & J1 & B & S).
   assert (NE1 : non_error d1) by apply J1.
   assert (L1 : limit_of d1 = lim) by apply J1.
   assert (DC1 : decode_chunk d1 = KNone d1).
